@@ -404,6 +404,7 @@ func (e *emitter) sparseDatabases(r *rand.Rand, dir, tier string) error {
 			scs = append(scs, sparseScenario{ps, -3, "lock-beyond-then-inside", nil, true, false, false})
 			scs = append(scs, boundaryHistories(ps, ps == 65536 || ps == 4096)...)
 			if ps == 65536 || ps == 4096 {
+				scs = append(scs, sparseScenario{ps, -1, "lock-next-page-grow-vacuum-write", nil, true, false, false})
 				scs = append(scs, sparseScenario{ps, 0, "lock-last-page", nil, true, false, false}, sparseScenario{ps, 2, "lock-inside", nil, true, false, false}, sparseScenario{ps, -1, "lock-next-page", nil, true, false, false})
 			}
 		}
@@ -415,6 +416,7 @@ func (e *emitter) sparseDatabases(r *rand.Rand, dir, tier string) error {
 		bh := boundaryHistories(65536, false)
 		scs = append(scs, bh[:7]...)
 		scs = append(scs, sparseScenario{65536, -1, "lock-next-page-then-inside", nil, true, true, false})
+		scs = append(scs, sparseScenario{65536, -1, "lock-next-page-grow-vacuum-write", nil, true, true, false})
 		scs = append(scs, bh[7:]...)
 		scs = append(scs, boundaryHistories(4096, false)[:3]...)
 		scs = append(scs, sparseScenario{65536, 0, "lock-last-page", nil, true, false, false}, sparseScenario{65536, -3, "lock-beyond-then-inside", nil, true, false, false})
@@ -605,7 +607,23 @@ func (e *emitter) sparseOne(r *rand.Rand, dir string, sc sparseScenario, decodeA
 		fol.start, _ = litestream.ReadTXIDFile(fol.out)
 		lap("follower initial restore")
 	}
-	if sc.growths == nil {
+	if sc.growths == nil && strings.HasSuffix(sc.name, "grow-vacuum-write") {
+		// inside ONE sync interval: growth across the lock page, a VACUUM that shrinks the database back below it,
+		// and one more commit that does not shrink it; the page map must drop the pages beyond the final size
+		// (seed C17g: the trim ran only when the LAST transaction of the segment shrank the database)
+		if err := exec("INSERT INTO t(v) VALUES (randomblob(?))", int(ps)*5+int(ps)/2); err != nil {
+			return err
+		}
+		if err := exec("VACUUM"); err != nil {
+			return fmt.Errorf("VACUUM: %w", err)
+		}
+		if err := exec("INSERT INTO t(v) VALUES (randomblob(100))"); err != nil {
+			return err
+		}
+		if err := db.Sync(ctx); err != nil {
+			return fmt.Errorf("sync after growth across the lock page, VACUUM and one more commit in one sync interval: %w", err)
+		}
+	} else if sc.growths == nil {
 		// growth across the lock page within one sync: overflow pages n0+1 ...
 		if err := exec("INSERT INTO t(v) VALUES (randomblob(?))", int(ps)*5+int(ps)/2); err != nil {
 			return err
@@ -708,7 +726,14 @@ func (e *emitter) sparseOne(r *rand.Rand, dir string, sc sparseScenario, decodeA
 			}
 			obs = append(obs, o)
 			if isFull(o, lock) {
-				if bad := e.checkFileContent(filepath.Join(c.LTXLevelDir(level), en.Name()), ps, patterned); bad != "" {
+				// only the patterned pages the encoded database still has (a VACUUM may have shrunk it below them)
+				within := map[uint32]bool{}
+				for p := range patterned {
+					if p <= o.hdr.Commit {
+						within[p] = true
+					}
+				}
+				if bad := e.checkFileContent(filepath.Join(c.LTXLevelDir(level), en.Name()), ps, within); bad != "" {
 					e.violation("C17/full-encoding-page-content-differs",
 						fmt.Sprintf("page size %d, scenario %s, level %d file %s (commit %d, lock page %d): %s", ps, sc.name, level, en.Name(), o.hdr.Commit, lock, bad),
 						map[string]any{"scenario": cls, "how": "./check C17 re-runs the scenario"})
